@@ -81,7 +81,88 @@ pub fn wide(rep: &mut Rep, base_idx: u64) {
     }
 }
 
+/// The two directions number their packets independently: the client's own QoS 2 (or QoS 1) publish may carry the identifier
+/// of an inbound QoS 2 message that still waits for its PUBREL. Completing the one must not touch the other: a re-delivery
+/// of the inbound message stays a re-delivery. Also the other way round: an inbound QoS 1 message under identifier N says
+/// nothing about a later inbound QoS 2 message under N.
+pub fn shared_identifiers(rep: &mut Rep, base_idx: u64, prop: &'static str) {
+    rep.note("identifier used in both directions: an inbound QoS 2 message under identifier N in {2, 3, 4} waiting for PUBREL, the client's own QoS 2 / QoS 1 publish under the same N carried to completion (or refused), then the re-delivery (not yielded again), PUBREL, and a new message under N (yielded); and inbound QoS 1 under N followed by a first QoS 2 delivery under N");
+    let mut idx = base_idx;
+    for n in [2u16, 3, 4] {
+        for own_q2 in [true, false] {
+            for outcome in 0..3u8 {
+                let id = format!("shared-id:{n}:{}:{outcome}", own_q2 as u8);
+                idx += 1;
+                if !rep.take(idx, &id) {
+                    continue;
+                }
+                let mut w = World::boot(WorldCfg { seed: rep.seed, sei: Some(3600), ..Default::default() });
+                let a = w.start(0, Kind::Sub);
+                w.settle_check();
+                w.deliver_ack(a, 1, 0, 0);
+                w.settle_check();
+                w.take_stream(a);
+                let sid = w.sub_id_of(a).unwrap_or(1);
+                // inbound QoS 1 under N first: acknowledged and done with
+                w.in_publish(1, n, false, &[sid], false);
+                w.settle_check();
+                // first QoS 2 delivery under N
+                w.in_publish(2, n, false, &[sid], false);
+                w.settle_check();
+                // the client's own publishes until one carries N
+                let mut hit = false;
+                for _ in 0..6 {
+                    let b = w.start(1, if own_q2 { Kind::Pub2 } else { Kind::Pub1 });
+                    w.settle_check();
+                    let mine = w.m[b].pkt_id == Some(n);
+                    // outcome 0: success, 1: refused at the first acknowledgement, 2: success with full-form acknowledgements
+                    let ridx = if mine && outcome == 1 { 2 } else { 0 };
+                    w.deliver_ack(b, 1, ridx, if outcome == 2 { 1 } else { 0 });
+                    w.settle_check();
+                    if own_q2 && ridx == 0 {
+                        w.deliver_ack(b, 2, 0, if outcome == 2 { 1 } else { 0 });
+                        w.settle_check();
+                    }
+                    if mine {
+                        hit = true;
+                        break;
+                    }
+                }
+                if hit {
+                    rep.add("identifier_shared_between_directions_cases", 1);
+                }
+                // the broker has not seen our PUBREC / sends the message again
+                w.in_publish(2, n, true, &[sid], false);
+                w.settle_check();
+                w.in_pubrel(n);
+                w.settle_check();
+                w.in_publish(2, n, false, &[sid], false);
+                w.settle_check();
+                w.in_publish(1, n, false, &[sid], false);
+                w.settle_check();
+                w.in_publish(2, n, true, &[sid], false);
+                w.settle_check();
+                w.in_pubrel(n);
+                w.settle_check();
+                finish(&mut w);
+                rep.add("evaluations", 1);
+                rep.distinct(&("shared-id", n, own_q2, outcome));
+                for v in w.viols.iter_mut() {
+                    if v.sig.starts_with("stream/") && !v.props.contains(&prop) {
+                        v.props = if prop == "C07" { &["C07"] } else { &["C09"] };
+                    }
+                }
+                if harvest(rep, &mut w, &id) == 0 {
+                    rep.sample(|| format!("{id}: own publish under the identifier of an unreleased inbound message: {hit}; {} items checked", w.counters.stream_items_checked));
+                }
+                add_counters(rep, &w);
+            }
+        }
+    }
+}
+
 pub fn run(rep: &mut Rep) {
+    shared_identifiers(rep, 8_800_000, "C09");
     wide(rep, 700_000_000);
     let mut alpha = Vec::new();
     for id in [1u16, 2, 3] {
